@@ -165,6 +165,8 @@ def entry_sx(entry):
     if entry[0] == "parse": return "(parse %d)" % int(entry[1])
     if entry[0] == "scan":
         return "(scan %s %d %d)" % ("N" if entry[1] is None else entry[1], int(entry[2]), int(entry[3]))
+    if entry[0] == "peg":
+        return "(peg)"
     raise ValueError(entry)
 
 
@@ -220,6 +222,13 @@ def outcome_from_model(text, dumper):
         elif fin == "div": f = "div"
         else: f = _err(fin, dumper)
         return ("scan", ms, f)
+    if k == "peg":
+        r = sx[3]
+        if isinstance(r, list) and r[0] == "ok":
+            res = ("ok", int(r[1]), [tok_from_sx(x) for x in r[2]])
+        else:
+            res = (r,)
+        return ("peg", sx[1] == "1", sx[2] == "1", res)
     if k == "bad":
         return ("bad", text)
     raise ValueError(text)
